@@ -42,7 +42,8 @@ def lv_sigma(t, s):
 def make_stock(rng, kind=None, dtype=None, cost=None, dt=None):
     kind = kind or pick(rng, STOCKS)
     cost = float(pick(rng, [0.0, 1e-4, 1e-3, 1e-2])) if cost is None else cost
-    dt = dt if dt is not None else float(pick(rng, [1 / 250, 1 / 250, 1 / 52, 1 / 12, 0.01]))
+    dt_given = dt is not None
+    dt = dt if dt_given else float(pick(rng, [1 / 250, 1 / 250, 1 / 52, 1 / 12, 0.01]))
     kw = dict(cost=cost, dt=dt, dtype=dtype)
     if kind == "brownian":
         s = BrownianStock(sigma=float(rng.uniform(0.05, 0.6)), mu=float(pick(rng, [0.0, 0.0, 0.1, -0.2])), **kw)
@@ -79,6 +80,8 @@ def make_stock(rng, kind=None, dtype=None, cost=None, dt=None):
             **kw,
         )
     elif kind == "rbergomi":
+        if not dt_given and rng.random() < 0.5:
+            kw = dict(kw, dt=float(pick(rng, [1 / 2500, 1 / 1250])))  # also an intraday grid (several steps per trading day)
         s = RoughBergomiStock(
             alpha=float(rng.uniform(-0.45, -0.2)),
             rho=float(rng.uniform(-0.9, 0.0)),
@@ -167,7 +170,7 @@ def varswap_pricer(varswap):
 def make_hedge(rng, derivative, kind=None):
     """Returns (hedge_list or None, label). Listed instruments live on the derivative's own underlier."""
     stock = derivative.ul()
-    kind = kind or pick(rng, ["ul", "ul", "none", "ul+eu", "eu", "ul+var", "eu+eu"])
+    kind = kind or pick(rng, ["ul", "ul", "none", "ul+eu", "eu", "ul+var", "eu+eu", "eu+ul"])
     mat = derivative.maturity
     if kind == "none":
         return None, kind
@@ -181,6 +184,8 @@ def make_hedge(rng, derivative, kind=None):
 
     if kind == "ul+eu":
         return [stock, listed_eu(1.05, 1e-3)], kind
+    if kind == "eu+ul":
+        return [listed_eu(1.05, 1e-3), stock], kind  # the caller's order is the order of the hedge columns: a listed derivative may come first
     if kind == "eu":
         return [listed_eu(0.95, 5e-4)], kind
     if kind == "eu+eu":
@@ -320,7 +325,7 @@ def scenario(rng, dtype=None, stock_kind=None, deriv_kind=None, hedge_kind=None,
     derivative = make_derivative(rng, stock, deriv_kind, n_steps=n_steps)
     hk = hedge_kind
     if hk is None:
-        choices = ["ul", "ul", "none", "ul+eu", "eu", "eu+eu"]
+        choices = ["ul", "ul", "none", "ul+eu", "eu", "eu+eu", "eu+ul"]
         if stock._pfv_kind == "heston":
             choices.append("ul+var")
         hk = pick(rng, choices)
